@@ -1279,6 +1279,34 @@ impl Ctl {
     pub fn nobj(&self) -> usize {
         alloc::ntracked()
     }
+    /// object currently stored in strong cell `c` / weak cell `c` / strong field `f` of object `id` / its weak field
+    /// (0 = null or not readable any more); used by the replayer to resolve abstract locations
+    pub fn cell_obj(&self, c: usize) -> usize {
+        Self::hnd(verif::atomic_rc_word(&cells()[c])).obj
+    }
+    pub fn wcell_obj(&self, c: usize) -> usize {
+        Self::hnd(verif::atomic_weak_word(&wcells()[c])).obj
+    }
+    pub fn field_obj(&self, id: usize, f: usize) -> usize {
+        let p = PAYLOAD[id].load(SeqCst) as *const Node;
+        if p.is_null() || NDROP[id].load(SeqCst) != 0 || alloc::nfree(id) != 0 {
+            return 0;
+        }
+        Self::hnd(verif::atomic_rc_word(unsafe { &(*p).next[f] })).obj
+    }
+    pub fn wfield_obj(&self, id: usize) -> usize {
+        let p = PAYLOAD[id].load(SeqCst) as *const Node;
+        if p.is_null() || NDROP[id].load(SeqCst) != 0 || alloc::nfree(id) != 0 {
+            return 0;
+        }
+        Self::hnd(verif::atomic_weak_word(unsafe { &(*p).wnext })).obj
+    }
+    pub fn site_of(&self, t: usize) -> u32 {
+        self.ws[t].at.unwrap_or(0)
+    }
+    pub fn pending_tasks(&self) -> usize {
+        self.tasks.len()
+    }
 
     /// Appends one trace line with the full projected state.
     pub fn record(&mut self, kind: &str, t: usize, what: &str, ret: Option<String>) {
